@@ -221,3 +221,56 @@ func Retain(st *CaseStats, c *Case, fn string, in interface{}, s string) {
 }
 
 func strconvQuote(b []byte) string { return fmt.Sprintf("%q", string(b)) }
+
+// RetainBytes is Retain for byte slices a function returned (results built in pooled or reused buffers).
+type retainedB struct {
+	b    []byte
+	copy []byte
+	in   interface{}
+}
+
+var retainRingB = map[string][]retainedB{}
+
+func RetainBytes(st *CaseStats, c *Case, fn string, in interface{}, b []byte) {
+	ring := retainRingB[fn]
+	for _, r := range ring {
+		if string(r.b) != string(r.copy) {
+			st.Add(Mismatch{Fn: fn, Kind: "value", Case: c, Input: map[string]interface{}{"earlier_call": r.in, "later_call": in},
+				Expected: "the bytes returned by the earlier call still read " + strconvQuote(r.copy), Actual: string(r.b)})
+			retainRingB[fn] = nil
+			return
+		}
+	}
+	if len(b) == 0 {
+		return
+	}
+	ring = append(ring, retainedB{b: b, copy: append([]byte{}, b...), in: in})
+	if len(ring) > 4 {
+		ring = ring[1:]
+	}
+	retainRingB[fn] = ring
+}
+
+// Spare returns a copy of b that sits in a larger buffer of the caller: 24 bytes of 0xA5 lie behind it within the
+// slice's capacity. SpareIntact tells whether a callee left them alone (a callee may not write behind len).
+func Spare(b []byte) []byte {
+	buf := make([]byte, len(b)+24)
+	copy(buf, b)
+	for i := len(b); i < len(buf); i++ {
+		buf[i] = 0xA5
+	}
+	return buf[:len(b)]
+}
+
+func SpareIntact(b []byte) bool {
+	full := b[:cap(b)]
+	if len(full) < len(b)+24 {
+		return true
+	}
+	for _, x := range full[len(b) : len(b)+24] {
+		if x != 0xA5 {
+			return false
+		}
+	}
+	return true
+}
